@@ -276,6 +276,9 @@ class FnTr:
         if k == "mcall" and e[2] == "len" and not e[3] and e[1][0] == "path" and not self.is_cursor(e[1][1]) \
                 and self.lookup(e[1][1])[2] == "buffer":
             return ("(length %s)" % self.lookup(e[1][1])[1], "usize", [])
+        if k == "mcall" and e[2] == "is_empty" and not e[3] and e[1][0] == "path" and not self.is_cursor(e[1][1]) \
+                and self.lookup(e[1][1])[2] == "buffer":
+            return ("(Nat.eqb (length %s) O)" % self.lookup(e[1][1])[1], "bool", [])
         if k == "mcall":
             # (lo..=hi).contains(&b)
             if e[2] == "contains" and e[1][0] in ("paren", "range"):
@@ -701,6 +704,8 @@ class FnTr:
             raise TranslationError("assignment to immutable " + repr(lhs))
         if op != "=":
             rhs = ("binop", op[0], lhs, rhs)
+        if op == "=" and rhs == ("path", "None") and ty.startswith("opt"):
+            return self.setter(field, "None") + " ;;~ " + nxt()
 
         def k(t, tyr):
             nonlocal ty
@@ -1143,6 +1148,22 @@ def _subst(node, m):
     return node
 
 
+def _strip_ptr(e):
+    """the path under `&mut *( x as T )`-style pointer plumbing, or None"""
+    while True:
+        if e[0] == "paren":
+            e = e[1]
+        elif e[0] == "cast":
+            e = e[1]
+        elif e[0] == "ref":
+            e = e[2]
+        elif e[0] == "unop" and e[1] == "*":
+            e = e[2]
+        else:
+            break
+    return e if e[0] == "path" else None
+
+
 class Gen:
     """per-crate state: function table, constants, special shapes"""
 
@@ -1167,6 +1188,7 @@ class Gen:
             "allow_space_before_first_header_name": "bool", "ignore_invalid_headers": "bool"}}
         self.fn_rty = {}
         self._helpers = {}
+        self.core_of = {}
         self.out = []
         self.errors = []
 
@@ -1229,6 +1251,25 @@ class Gen:
             f.made_cursor = True
             f.scopes[-1][s[1][1]] = ("cursor", s[1][1], "cursor")
             return nxt()
+        if f.name == "parse_with_config" and s[3] is not None and s[1][0] == "pbind":
+            # `let headers = mem::take(&mut self.headers);`: `headers` is from now on a POINTER to the caller's array
+            # (whatever the array holds when it is dereferenced: v_mem); self.headers becomes the empty slice.
+            # `let headers: *mut [..] = headers;` / `let headers = headers as *mut [..];`: the same pointer.
+            name, init = s[1][1], s[3]
+            if init == ("call", ("path", "mem::take"), [("ref", True, ("field", ("path", "self"), "headers"))]):
+                f.scopes[-1][name] = ("arrptr", name, "arrptr")
+                l = f.gensym("l")
+                return "%s <~ iget ;; %s ;;~ %s ;;~ %s" % (
+                    l, f.setter("v_mem", "(%s_self_headers %s)" % (f.coqname, l)), f.setter("self_headers", "[]"), nxt())
+            pth = _strip_ptr(init)
+            if pth is not None:
+                try:
+                    kind = f.lookup(pth[1])[0]
+                except TranslationError:
+                    kind = None
+                if kind == "arrptr":
+                    f.scopes[-1][name] = ("arrptr", name, "arrptr")
+                    return nxt()
         if f.name == "parse_headers_iter_uninit":
             name, init = s[1][1], s[3]
             if name == "autoshrink":
@@ -1260,6 +1301,12 @@ class Gen:
         return None
 
     def special_assign(self, f, s, nxt):
+        if f.name == "parse_with_config" and s[2] == "=" and s[1] == ("field", ("path", "self"), "headers"):
+            # `self.headers = &mut *(headers as *mut [Header])`: the whole array, as it is NOW
+            pth = _strip_ptr(s[3])
+            if pth is not None and f.lookup(pth[1])[0] == "arrptr":
+                l = f.gensym("l")
+                return "%s <~ iget ;; %s ;;~ %s" % (l, f.setter("self_headers", "(%s_v_mem %s)" % (f.coqname, l)), nxt())
         if f.name == "parse_headers_iter_uninit":
             lhs, op, rhs = s[1], s[2], s[3]
             if lhs == ("unop", "*", ("path", "uninit_header")) and op == "=":
@@ -1276,6 +1323,10 @@ class Gen:
         return None
 
     def special_match(self, f, e, k):
+        if f.name == "parse_with_config":
+            sp = self.match_core_call(f, e, k)
+            if sp is not None:
+                return sp
         # complete!(CALL)  ==  match CALL? { Status::Complete(v) => v, Status::Partial => return Ok(Status::Partial) }
         scrut, arms = e[1], e[2]
         if scrut[0] == "try" and len(arms) == 2:
@@ -1299,6 +1350,51 @@ class Gen:
                     return sp
             raise TranslationError("%s: `?` outside the complete! shape" % f.name)
         return None
+
+    def match_core_call(self, f, e, k):
+        """match self.parse_with_config_and_uninit_headers(buf, config, &mut *headers) {
+               Ok(Status::Complete(idx)) => .., other => .. }"""
+        scrut, arms = e[1], e[2]
+        if not (scrut[0] == "mcall" and scrut[1] == ("path", "self") and scrut[2] == "parse_with_config_and_uninit_headers"
+                and len(scrut[3]) == 3):
+            return None
+        if k is not RET:
+            raise TranslationError("%s: the core call must be the function's result" % f.name)
+        a_buf, a_cfg, a_hdr = scrut[3]
+        if a_buf != ("path", "buf") or a_cfg != ("path", "config"):
+            raise TranslationError("%s: core call arguments" % f.name)
+        pth = _strip_ptr(a_hdr)
+        if pth is None or f.lookup(pth[1])[0] != "arrptr":
+            raise TranslationError("%s: the header argument of the core call must be the taken array" % f.name)
+        if len(arms) != 2 or arms[0][1] is not None or arms[1][1] is not None \
+                or arms[0][0] != ("pts", "Ok", [("pts", "Status::Complete", [("pbind", "idx", False, None)])]) \
+                or arms[1][0][0] != "pbind" or arms[1][0][3] is not None:
+            raise TranslationError("%s: core call match arms" % f.name)
+        other = arms[1][0][1]
+        bodies = []
+        for a in arms:
+            b, mode = a[2], "tail"
+            if b[0] == "rawresult":
+                b, mode = b[1], b[2]
+            bodies.append((b, mode))
+        cn, core = f.coqname, self.core_of[f.coqname]
+        fields = [fl for fl, _ in f.muts]
+        l, r = f.gensym("l"), f.gensym("r")
+        init = "(fun l0 => %s_init %s)" % (core, " ".join("(%s_%s l0)" % (cn, fl) for fl in fields))
+        fin = "(fun lh _ => mk%s %s)" % (f.L(), " ".join("(%s_%s lh)" % (core, fl) for fl in fields))
+        f.scopes.append({"idx": ("imm", "idx", "usize")})
+        try:
+            b0 = f.result(*bodies[0])
+        finally:
+            f.scopes.pop()
+        f.scopes.append({other: ("imm", cid(other), "res_usize")})
+        try:
+            b1 = f.result(*bodies[1])
+        finally:
+            f.scopes.pop()
+        return ("%s <~ iget ;; %s ;;~ %s <~ isub_catch (%s_body config buf) %s %s ;; "
+                "match %s with RComplete idx => %s | %s => %s end") % (
+            l, f.setter("v_headers", "(%s_v_mem %s)" % (cn, l)), r, core, init, fin, r, b0, cid(other), b1)
 
     HCFG_FIELDS = ["allow_spaces_after_header_name", "allow_obsolete_multiline_headers",
                    "allow_space_before_first_header_name", "ignore_invalid_headers"]
@@ -1534,8 +1630,6 @@ def generate(lib_toks, mac_toks):
 
 PINNED_WRAPPERS = [
     ('parse_with_uninit_headers', 0, "fn parse_with_uninit_headers ( & mut self , buf : & 'b [ u8 ] , headers : & 'h mut [ MaybeUninit < Header < 'b >> ] , ) -> Result < usize > { self . parse_with_config_and_uninit_headers ( buf , & Default :: default ( ) , headers ) }"),
-    ('parse_with_config', 0, "fn parse_with_config ( & mut self , buf : & 'b [ u8 ] , config : & ParserConfig ) -> Result < usize > { let headers = mem :: take ( & mut self . headers ) ; unsafe { let headers : * mut [ Header < '_ > ] = headers ; let headers = headers as * mut [ MaybeUninit < Header < '_ >> ] ; match self . parse_with_config_and_uninit_headers ( buf , config , & mut * headers ) { Ok ( Status :: Complete ( idx ) ) => Ok ( Status :: Complete ( idx ) ) , other => { self . headers = & mut * ( headers as * mut [ Header < '_ > ] ) ; other } , } } }"),
-    ('parse_with_config', 1, "fn parse_with_config ( & mut self , buf : & 'b [ u8 ] , config : & ParserConfig ) -> Result < usize > { let headers = mem :: take ( & mut self . headers ) ; unsafe { let headers : * mut [ Header < '_ > ] = headers ; let headers = headers as * mut [ MaybeUninit < Header < '_ >> ] ; match self . parse_with_config_and_uninit_headers ( buf , config , & mut * headers ) { Ok ( Status :: Complete ( idx ) ) => Ok ( Status :: Complete ( idx ) ) , other => { self . headers = & mut * ( headers as * mut [ Header < '_ > ] ) ; other } , } } }"),
     ('parse', 0, "fn parse ( & mut self , buf : & 'b [ u8 ] ) -> Result < usize > { self . parse_with_config ( buf , & Default :: default ( ) ) }"),
     ('parse', 1, "fn parse ( & mut self , buf : & 'b [ u8 ] ) -> Result < usize > { self . parse_with_config ( buf , & ParserConfig :: default ( ) ) }"),
     ('parse_request', 0, "fn parse_request < 'buf > ( & self , request : & mut Request < '_ , 'buf > , buf : & 'buf [ u8 ] , ) -> Result < usize > { request . parse_with_config ( buf , self ) }"),
@@ -1598,6 +1692,22 @@ def generate_api(g):
         except exc as ex:
             g.errors.append("G9 %s#%d: %s" % (rn, nth, ex))
             out.append("(* fn %s (#%d): TRANSLATION FAILED: %s *)\nDefinition %s_body : unit := tt.\n" % (rn, nth, str(ex).replace("*)", "* )"), cn))
+    # the two `parse_with_config` wrappers (take self.headers, cast, call the core, restore unless Complete)
+    for nth, cn, core, selfs, names in ((0, "g_request_with_config", "g_request_core") + tuple(specs[0][3:]),
+                                        (1, "g_response_with_config", "g_response_core") + tuple(specs[1][3:])):
+        try:
+            params = {"buf": bufp, "config": cfgp}
+            tys = dict(selfs)
+            for src, fl in names.items():
+                params[src] = ("mut", fl, tys[fl])
+            g.core_of[cn] = core
+            text, f = g.emit_fn("parse_with_config", cn, "usize", nth=nth, params=params,
+                                extra_args="(config : config) (buf : list N) ",
+                                param_muts=selfs + [("v_headers", "slots"), ("v_mem", "slots")])
+            out.append("(* fn parse_with_config (#%d) *)\n%s" % (nth, text))
+        except exc as ex:
+            g.errors.append("G9 parse_with_config#%d: %s" % (nth, ex))
+            out.append("(* fn parse_with_config (#%d): TRANSLATION FAILED: %s *)\nDefinition %s_body : unit := tt.\n" % (nth, str(ex).replace("*)", "* )"), cn))
     try:
         text, f = g.emit_fn("parse_headers", "g_parse_headers", "tuple_usize_slots",
                             params={"src": ("imm", "src", "buffer"), "dst": ("mut", "v_headers", "slots")},
